@@ -1,9 +1,35 @@
 import Oracle.Proto
+import GoluaVerif.Model.Limits
 namespace Oracle.C04
+open GoluaVerif.Model
 
-/-- placeholder: the oracle driver for C04 is not built yet -/
+/-- oracle mode c04.  Input lines (from harness mode `limits`):
+      limit <kind> <size> <observed> <measure>
+    Output, one line per input line: the outcome class Model.Limits predicts for the measured quantity
+    (`ok` | `compile-error` | `panic` | `wrong`), or `?` where the model leaves it undetermined. -/
+def answer (line : String) : String :=
+  match line.splitOn " " with
+  | ["limit", kind, _size, _obs, measure] =>
+    match measure.toNat? with
+    | some m =>
+      match Limits.predict kind m with
+      | some o => o.cls
+      | none => "?"
+    | none => "bad-line"
+  | _ => "bad-line"
+
+partial def loop (h : IO.FS.Stream) (out : IO.FS.Stream) : IO Unit := do
+  let line ← h.getLine
+  if line.isEmpty then return ()
+  let l := line.trimRight
+  if l.isEmpty then loop h out else
+  out.putStrLn (answer l)
+  loop h out
+
 def main (_args : List String) : IO UInt32 := do
-  IO.eprintln "oracle mode c04: not built"
-  return 2
+  let stdin ← IO.getStdin
+  let stdout ← IO.getStdout
+  loop stdin stdout
+  return 0
 
 end Oracle.C04
